@@ -396,8 +396,10 @@ structure GoodAck (s : Sender ℚ) (x : AckIn ℚ) : Prop where
 
 theorem GoodAck.ok {x : AckIn ℚ} (g : GoodAck s x) : AckOk s x := ⟨g.fid, g.ptime⟩
 
-/-- the four ways an ACK is processed -/
+/-- the ways an ACK is processed -/
 inductive AckCase (s : Sender ℚ) (x : AckIn ℚ) (s' : Sender ℚ) (outs : List (Tx ℚ)) : Prop
+  /-- an ACK overtaken by a later cumulative one (`ackno < last_ack`): ignored -/
+  | stale : x.ackno < s.last_ack → s' = s → outs = [] → AckCase s x s' outs
   /-- first or second duplicate: counted -/
   | early : x.ackno = s.last_ack → s.dupack < 2 → s' = { s with dupack := s.dupack + 1 } → outs = [] → AckCase s x s' outs
   /-- third or later duplicate: the window is adjusted and `last_ack` is retransmitted when it is outstanding -/
@@ -417,7 +419,10 @@ inductive AckCase (s : Sender ℚ) (x : AckIn ℚ) (s' : Sender ℚ) (outs : Lis
 
 theorem ack_cases {x : AckIn ℚ} {s' : Sender ℚ} {outs : List (Tx ℚ)} (h : Inv s) (hok : AckOk s x)
     (hs : s.ackStep x = .ok s' outs) : AckCase s x s' outs := by
-  by_cases hd : x.ackno = s.last_ack
+  rcases Nat.lt_trichotomy x.ackno s.last_ack with hst | hd | hd
+  · rw [ackStep_stale s x hok hst] at hs
+    injection hs with e1 e2
+    exact .stale hst e1.symm e2.symm
   · rcases Nat.lt_trichotomy s.dupack 2 with h2 | h2 | h2
     · rw [ackStep_early s x hok hd h2] at hs
       injection hs with e1 e2
@@ -464,7 +469,7 @@ theorem ack_cases {x : AckIn ℚ} {s' : Sender ℚ} {outs : List (Tx ℚ)} (h : 
   · obtain ⟨T, S, r, _, _, hT, hsub⟩ := ackStep_new_spec s x h.cc h.keys h.nodup hok hd
     rw [r] at hs
     injection hs with e1 e2
-    exact .new T S hd e1.symm hT hsub e2.symm
+    exact .new T S (by omega) e1.symm hT hsub e2.symm
 
 /-! ## every accepted action keeps `SInv`; what it does to the numbers the loop invariant talks about -/
 
@@ -563,6 +568,7 @@ theorem eff_ack {x : AckIn ℚ} {s' : Sender ℚ} {outs : List (Tx ℚ)} (h : SI
   have nofresh : ∀ q, s.mss ∣ q → s.next_seq ≤ q → q < s.next_seq → q ∈ AL.keys s'.timers := by
     intro q _ h1 h2; omega
   cases ack_cases h.inv g.ok hs with
+  | stale hlt _ _ => exact absurd hlt (Nat.not_lt.mpr g.ge)
   | early hd h2 e1 e2 =>
     subst e1 e2
     exact ⟨{ h with inv := hinv }, rfl, Or.inl rfl, Nat.le_refl _, fun _ _ => rfl, le_refl _, fun q hq => Or.inl hq,
